@@ -534,8 +534,8 @@ class AsyncServer(base_server.BaseServer):
 
     async def _handle_connect(self, eio_sid, namespace, data):
         """Handle a client connection request."""
-        if eio_sid not in self.environ:
-            # the Engine.IO connection has already ended
+        if eio_sid not in self.environ or eio_sid in self._ending:
+            # the Engine.IO connection has ended, or is being ended
             return
         namespace = namespace or '/'
         sid = None
@@ -725,6 +725,7 @@ class AsyncServer(base_server.BaseServer):
     async def _handle_eio_disconnect(self, eio_sid, reason):
         """Handle Engine.IO disconnect event."""
         error = None
+        self._ending.add(eio_sid)
         for n in list(self.manager.get_namespaces()).copy():
             try:
                 await self._handle_disconnect(eio_sid, n, reason)
@@ -736,6 +737,7 @@ class AsyncServer(base_server.BaseServer):
             del self._binary_packet[eio_sid]
         if eio_sid in self.environ:
             del self.environ[eio_sid]
+        self._ending.discard(eio_sid)
         if error is not None:
             raise error
 
